@@ -45,6 +45,10 @@ pub trait Property: Sync + Send {
     fn process_level(&self) -> bool {
         false
     }
+    /// every run of this property is a child process (in-process history is meaningless)
+    fn process_level_only(&self) -> bool {
+        false
+    }
 }
 
 pub fn by_id(id: &str) -> Option<Box<dyn Property>> {
